@@ -29,6 +29,7 @@ type vgCfg struct {
 	DisableCSRF        bool     `json:"disableCSRF"`
 	DisableHeaderCheck bool     `json:"disableHeaderCheck"`
 	Creds              bool     `json:"creds"`
+	Public             bool     `json:"public"`
 }
 
 type vgRec struct {
@@ -70,10 +71,12 @@ func TestVerifGate(t *testing.T) {
 	enc := json.NewEncoder(w)
 	rng := rand.New(rand.NewSource(seed))
 	allSets := []string{EndpointsRead, EndpointsStatus, EndpointsTransaction, EndpointsWallet, EndpointsInsecureWalletSeed, "PROMETHEUS", EndpointsNetCtrl, EndpointsStorage}
-	const host = "127.0.0.1:6420"
 	const white = "trusted.example.com"
 	for c := 0; c < count; c++ {
-		cfg := vgCfg{Enabled: []string{}, DisableCSRF: rng.Intn(4) == 0, DisableHeaderCheck: rng.Intn(4) == 0, Creds: rng.Intn(3) == 0}
+		// the interface the API is bound to: loopback (Host header checked, both localhost spellings are the node's own origin)
+		// or a public address (no Host check; only the configured host and the whitelist are acceptable origins)
+		cfg := vgCfg{Enabled: []string{}, DisableCSRF: rng.Intn(4) == 0, DisableHeaderCheck: rng.Intn(4) == 0, Creds: rng.Intn(3) == 0, Public: rng.Intn(3) == 0}
+
 		enabled := map[string]struct{}{}
 		for _, s := range allSets {
 			if rng.Intn(3) == 0 {
@@ -85,6 +88,10 @@ func TestVerifGate(t *testing.T) {
 			// two fixed configurations that every run contains: only WALLET / only INSECURE_WALLET_SEED enabled, all checks on
 			cfg = vgCfg{Enabled: []string{[]string{EndpointsWallet, EndpointsInsecureWalletSeed}[c]}}
 			enabled = map[string]struct{}{cfg.Enabled[0]: {}}
+		}
+		host := "127.0.0.1:6420"
+		if cfg.Public {
+			host = "192.168.1.5:6420"
 		}
 		conf := Config{DisableCSRF: cfg.DisableCSRF, DisableHeaderCheck: cfg.DisableHeaderCheck, DisableCSP: true, EnabledAPISets: enabled, HostWhitelist: []string{white}}
 		if cfg.Creds {
@@ -109,8 +116,8 @@ func TestVerifGate(t *testing.T) {
 				r.Auth = pick("none", "exact", "empty")
 			}
 			r.Host = pick("configured", "localhost-name", "foreign", "whitelisted", "empty")
-			r.Origin = pick("none", "own", "foreign", "unparsable", "whitelisted")
-			r.Referer = pick("none", "own", "foreign", "whitelisted")
+			r.Origin = pick("none", "own", "foreign", "unparsable", "whitelisted", "localhost-alias", "loopback-alias")
+			r.Referer = pick("none", "own", "foreign", "whitelisted", "localhost-alias")
 			r.Token = pick("valid", "none", "expired", "garbage", "tampered", "older", "forged-empty-key", "forged-other-key")
 			r.Ctype = pick("json", "json-charset", "text", "none")
 			if c < 2 && k < 2 {
@@ -134,7 +141,8 @@ func TestVerifGate(t *testing.T) {
 				req.SetBasicAuth("", "")
 			}
 			req.Host = map[string]string{"configured": host, "localhost-name": "localhost:6420", "foreign": "evil.example.com", "whitelisted": white, "empty": ""}[r.Host]
-			hv := map[string]string{"own": "http://" + host, "foreign": "http://evil.example.com", "unparsable": "http://[::bad", "whitelisted": "http://" + white + "/x"}
+			hv := map[string]string{"own": "http://" + host, "foreign": "http://evil.example.com", "unparsable": "http://[::bad", "whitelisted": "http://" + white + "/x",
+				"localhost-alias": "http://localhost:6420", "loopback-alias": "http://127.0.0.1:6420"}
 			if r.Origin != "none" {
 				req.Header.Set("Origin", hv[r.Origin])
 			}
